@@ -6,7 +6,8 @@
    output = ( snapshot after ConstPropagate, after ShortCircuitXORZero,
               after Prune (or () when pruning is off),
               (NumWires inputs outputs ((op in0 in1 out)...)) of Compile,
-              (Gate.Level per gate) (Gate.Visited per gate) )
+              (Gate.Level per gate) (Gate.Visited per gate)
+              (circuit.AssignLevels: Level per flat gate) )
             snapshot = ( (wire...) (gate...) (order...) )
    A panic of the Go code is (-1 code).
 
@@ -115,7 +116,8 @@ Definition run_c09 (inp : sx) : sx :=
          (if do_prune then snapshot G3 n0 D2 else SL []);
          sx_of_circuit c;
          ofLnat (map (fun i => nlevel (gn G4 i)) (seq 0 (gnn G4)));
-         ofLB (map (fun i => nvis (gn G4 i)) (seq 0 (gnn G4))) ].
+         ofLB (map (fun i => nvis (gn G4 i)) (seq 0 (gnn G4)));
+         ofLnat (assign_levels t c) ].
 
 (* the pipeline run by [run_c09] is literally [pipeline] of Passes.v *)
 Lemma run_c09_is_pipeline : forall (do_prune : bool) t G,
